@@ -92,15 +92,21 @@ NaiveAllOrders(m2o, m, sc, lm, E) ==
 \* Same set, computed with two sound reductions (checked equal to NaiveAllOrders by
 \* MC_Matcher): blocked candidates are dropped at once (lm only grows), and a tied best
 \* candidate that conflicts with no other remaining candidate is taken without branching.
-RECURSIVE NaiveOutcomes(_, _, _, _, _)
-NaiveOutcomes(m2o, m, sc, lm, E) ==
-    LET E1 == {c \in E : ~Blocked(m2o, lm, c)} IN
-    IF E1 = {} THEN {lm}
+\* The exploration is level-synchronous over the SET of intermediate states <<lm, remaining>>, so
+\* that different tie orders reaching the same state are explored once (a tie class of k mutually
+\* conflicting candidates costs at most 2^k states instead of k! paths).
+NaiveSucc(m2o, m, sc, f) ==      \* f = [lm, E]
+    LET E1 == {c \in f.E : ~Blocked(m2o, f.lm, c)} IN
+    IF E1 = {} THEN {[lm |-> f.lm, E |-> {}]}
     ELSE LET B    == Best(m, sc, E1)
              free == {c \in B : \A d \in E1 : ~Conflict(m2o, c, d)}
-         IN IF free # {}
-            THEN NaiveOutcomes(m2o, m, sc, lm \cup free, E1 \ free)
-            ELSE UNION {NaiveOutcomes(m2o, m, sc, lm \cup {c}, E1 \ {c}) : c \in B}
+         IN IF free # {} THEN {[lm |-> f.lm \cup free, E |-> E1 \ free]}
+            ELSE {[lm |-> f.lm \cup {c}, E |-> E1 \ {c}] : c \in B}
+RECURSIVE NaiveBfs(_, _, _, _)
+NaiveBfs(m2o, m, sc, F) ==
+    IF \A f \in F : f.E = {} THEN {f.lm : f \in F}
+    ELSE NaiveBfs(m2o, m, sc, UNION {NaiveSucc(m2o, m, sc, f) : f \in F})
+NaiveOutcomes(m2o, m, sc, lm, E) == NaiveBfs(m2o, m, sc, {[lm |-> lm, E |-> E]})
 
 \* eligible sets: definitely-beating candidates plus any subset of the undecidable ones
 \* (undecidable only arises for ASSD at milli resolution)
@@ -131,16 +137,19 @@ MergeStep(m, thr, shape, pr, rf, sc, lm, c) ==
               ELSE IF DefNotBeats(m, sc[c], thr) THEN {lm}
               ELSE {lm, lm \cup {c}}
 
-RECURSIVE MergeOutcomes(_, _, _, _, _, _, _, _)
-MergeOutcomes(m, thr, shape, pr, rf, sc, lm, C) ==
-    LET C1 == {c \in C : c[2] \notin PredsIn(lm)} IN
-    IF C1 = {} THEN {lm}
+MergeSucc(m, thr, shape, pr, rf, sc, f) ==      \* f = [lm, C]
+    LET C1 == {c \in f.C : c[2] \notin PredsIn(f.lm)} IN
+    IF C1 = {} THEN {[lm |-> f.lm, C |-> {}]}
     ELSE LET B == Best(m, sc, C1)
              \* independent candidates: share neither partner with any other remaining candidate
              free == {c \in B : \A d \in C1 : d = c \/ (d[1] # c[1] /\ d[2] # c[2])}
              pick == IF free # {} THEN {CHOOSE c \in free : TRUE} ELSE B
-         IN UNION {UNION {MergeOutcomes(m, thr, shape, pr, rf, sc, lm2, C1 \ {c})
-                           : lm2 \in MergeStep(m, thr, shape, pr, rf, sc, lm, c)} : c \in pick}
+         IN UNION {{[lm |-> lm2, C |-> C1 \ {c}] : lm2 \in MergeStep(m, thr, shape, pr, rf, sc, f.lm, c)} : c \in pick}
+RECURSIVE MergeBfs(_, _, _, _, _, _, _)
+MergeBfs(m, thr, shape, pr, rf, sc, F) ==
+    IF \A f \in F : f.C = {} THEN {f.lm : f \in F}
+    ELSE MergeBfs(m, thr, shape, pr, rf, sc, UNION {MergeSucc(m, thr, shape, pr, rf, sc, f) : f \in F})
+MergeOutcomes(m, thr, shape, pr, rf, sc, lm, C) == MergeBfs(m, thr, shape, pr, rf, sc, {[lm |-> lm, C |-> C]})
 
 MergeMatchSc(m, thr, shape, pr, rf, sc) == MergeOutcomes(m, thr, shape, pr, rf, sc, {}, DOMAIN sc)
 MergeMatch(m, thr, shape, pr, rf) == MergeMatchSc(m, thr, shape, pr, rf, ScoreMap(m, shape, pr, rf))
